@@ -10,6 +10,7 @@
 package mcpx
 
 import (
+	"slices"
 	"bufio"
 	"bytes"
 	"context"
@@ -93,6 +94,9 @@ func (g *c02Gen) freshID() string {
 	}
 }
 
+// c02AnyError: the response must be an error; which code is not checked here (C06 does).
+const c02AnyError = -1
+
 func (g *c02Gen) call(id string) c02Msg {
 	g.n++
 	r := g.r
@@ -103,7 +107,13 @@ func (g *c02Gen) call(id string) c02Msg {
 		}
 		return c02Msg{Raw: raw + "}", ID: id, Class: class, Want: want}
 	}
-	switch x := r.Intn(24); {
+	switch x := r.Intn(26); {
+	case x >= 24:
+		// per-request metadata that cannot be accepted: some error, exactly once, never a crash
+		meta := r.Choose(`"io.modelcontextprotocol/clientCapabilities":null`, `"io.modelcontextprotocol/clientCapabilities":"yes"`,
+			`"io.modelcontextprotocol/clientCapabilities":{},"io.modelcontextprotocol/clientInfo":17`, `"io.modelcontextprotocol/clientInfo":null`,
+			`"io.modelcontextprotocol/clientCapabilities":[],"io.modelcontextprotocol/clientInfo":null`)
+		return mk("bad-meta", c02AnyError, r.Choose("tools/list", "tools/call", "server/discover", "ping"), `{"_meta":{"io.modelcontextprotocol/protocolVersion":"2026-07-28",`+meta+`},"name":"echo","arguments":{}}`)
 	case x < 8:
 		return mk("call-ok", 0, "tools/call", fmt.Sprintf(`{"name":"echo","arguments":{"nonce":%d,"delay":%d}}`, g.n, r.Intn(6)))
 	case x < 10:
@@ -615,6 +625,13 @@ func decideC02(c *vh.Case, spec c02Spec, resps []c02Resp, stat map[int]int) {
 					c.Violate("valid-post-rejected", "payload %d contains only valid messages but was answered HTTP %d", w.payload, stat[w.payload])
 					return
 				}
+				// the HTTP error may carry a JSON-RPC error bearing the id (at most one, and an error)
+				for k, r := range rs {
+					if !dupKeys[id] && !r.OK && r.Via == w.payload {
+						rs = append(rs[:k:k], rs[k+1:]...)
+						break
+					}
+				}
 				continue
 			}
 			expect = append(expect, w)
@@ -647,6 +664,34 @@ func decideC02(c *vh.Case, spec c02Spec, resps []c02Resp, stat map[int]int) {
 		}
 		for _, r := range rs {
 			gc = append(gc, r.Code)
+		}
+		// an "any error" expectation is satisfied by any non-zero code that no exact expectation claims
+		for i, w := range wc {
+			if w != c02AnyError {
+				continue
+			}
+			left := append([]int(nil), gc...)
+			for _, w2 := range wc {
+				if w2 != c02AnyError {
+					if k := slices.Index(left, w2); k >= 0 {
+						left = slices.Delete(left, k, k+1)
+					}
+				}
+			}
+			for _, g := range left {
+				if g != 0 && !slices.Contains(wc, g) {
+					wc[i] = g
+					break
+				}
+			}
+			if wc[i] == c02AnyError {
+				for _, g := range left {
+					if g != 0 {
+						wc[i] = g
+						break
+					}
+				}
+			}
 		}
 		sort.Ints(wc)
 		sort.Ints(gc)
